@@ -325,8 +325,7 @@ class GaussSystem:
             return (label, ap, ms)
 
         out.append(adopt_p("cx"))
-        # a batched p(x) with the heteroscedastic classes is the business of C16 / C12 (finding F16), not of the cache graph
-        for Rp in ((1,) if m["cls"].startswith("Hetero") else (1, 2)):
+        for Rp in (1, 2):
             for op in ("joint", "margT", "condT"):
                 out.append(adopt_p("%s:%d" % (op, Rp)))
         return out
@@ -516,7 +515,7 @@ def root_specs(D, tier):
     for name in ("LRBF", "LSEM"):
         specs.append(dict(label="approx.%s" % name, t="approx", kind=name, Dx=D, Dy=2, Dk=2))
     for link in ("Exp", "CoshM1", "Heaviside", "ReLU"):
-        for (Dy, Da, Dk) in ((2, 2, 1), (2, 3, 2)):
+        for (Dy, Da, Dk) in ((2, 2, 1), (2, 2, 2), (2, 3, 2)):
             specs.append(dict(label="approx.Hetero%s/Dy%d.Da%d.Dk%d" % (link, Dy, Da, Dk), t="approx", kind="Hetero" + link, link=link, Dx=D, Dy=Dy, Da=Da, Dk=Dk))
     return specs
 
